@@ -39,6 +39,7 @@ OnDeliv ==
                   ELSE IF Ev.k # "launch" /\ ph = "none" THEN Flag("LaunchFirst")
                   ELSE IF Ev.k # "launch" /\ ph = "dead" THEN Flag("NothingAfterOwnKilled")
                   ELSE IF a \in newInst /\ Ev.i = Get(lastInst, a, -1) THEN Flag("ProviderGivesFreshInstance")
+                  ELSE IF Ev.i < Get(lastInst, a, 0) THEN Flag("OnlyTheNewestInstanceHandlesMessages")
                   ELSE IF a \in noSuch THEN Flag("FailedSpawnReceivesNothing")
                   ELSE IF Ev.k = "user" /\ Ev.n # Get(depth, a, 0) THEN Flag("BehaviourStackFollowsBecomeAndRestart")
                   ELSE bad
